@@ -37,7 +37,7 @@ RELAYS = [
     {'hex': _hex(4), 'nick': 'echo', 'ip': None, 'cons': False},     # not in the consensus
     {'hex': _hex(5), 'nick': None, 'ip': None, 'cons': False},       # not in the consensus, bare fingerprint
 ]
-CONSENSUS_NICK = dict(('$' + r['hex'], r['nick']) for r in RELAYS if r['cons'])
+CONSENSUS = dict(('$' + r['hex'], (r['nick'], r['ip'])) for r in RELAYS if r['cons'])
 
 
 def longname(i):
@@ -303,12 +303,12 @@ class Tracker(object):
 
 
 def check_state(state, ghost, tr):
-    """-> list of (clause, signature, what)"""
+    """-> list of (clause, signature, what, subject)"""
     out = []
     last = ghost.last
 
-    def bad(clause, sig, what):
-        out.append((clause, sig, what))
+    def bad(clause, sig, what, subj):
+        out.append((clause, sig, what, subj))
 
     # ---- the circuits listed are exactly Tor's; closed / failed ones are gone
     live_c = set(ghost.circ)
@@ -316,40 +316,43 @@ def check_state(state, ghost, tr):
     for cid in sorted(have_c - live_c):
         if ghost.circ_gen.get(cid):
             bad('closed_or_failed_circuit_is_gone', 'after-' + last,
-                'circuit %d is still listed; Tor closed/failed it; expected it gone' % cid)
+                'circuit %d is still listed; Tor closed/failed it; expected it gone' % cid, 'c%d' % cid)
         else:
-            bad('circuits_listed_exactly', 'extra-after-' + last, 'circuit %d listed; Tor never reported it' % cid)
+            bad('circuits_listed_exactly', 'extra-after-' + last, 'circuit %d listed; Tor never reported it' % cid, 'c%d' % cid)
     for cid in sorted(live_c - have_c):
         bad('circuits_listed_exactly', 'missing-first-seen-%s-after-%s' % (ghost.circ[cid]['first_seen'], last),
-            'circuit %d (Tor: %s) is not listed; expected listed' % (cid, ghost.circ[cid]['status']))
+            'circuit %d (Tor: %s) is not listed; expected listed' % (cid, ghost.circ[cid]['status']), 'c%d' % cid)
     for cid in sorted(live_c & have_c):
-        g, co = ghost.circ[cid], state.circuits[cid]
+        g, co, subj = ghost.circ[cid], state.circuits[cid], 'c%d' % cid
         if co.id != cid:
-            bad('circuits_listed_exactly', 'wrong-object-after-' + last, 'circuits[%d].id is %r' % (cid, co.id))
+            bad('circuits_listed_exactly', 'wrong-object-after-' + last, 'circuits[%d].id is %r' % (cid, co.id), subj)
         if co.state != g['status']:
-            bad('circuit_latest_status', 'after-' + last, 'circuit %d state %r; Tor last reported %s' % (cid, co.state, g['status']))
+            bad('circuit_latest_status', 'after-' + last, 'circuit %d state %r; Tor last reported %s' % (cid, co.state, g['status']), subj)
         if g['purpose'] is not None and co.purpose != g['purpose']:
-            bad('circuit_latest_purpose', 'after-' + last, 'circuit %d purpose %r; Tor last reported %s' % (cid, co.purpose, g['purpose']))
+            bad('circuit_latest_purpose', 'after-' + last,
+                'circuit %d purpose %r; Tor last reported %s' % (cid, co.purpose, g['purpose']), subj)
         if g['bflags_latest']:
             want = g['bflags'] or []
             if list(co.build_flags or []) != want:
                 bad('circuit_latest_flags', 'build-flags-after-' + last,
-                    'circuit %d build_flags %r; Tor last reported %r' % (cid, co.build_flags, want))
+                    'circuit %d build_flags %r; Tor last reported %r' % (cid, co.build_flags, want), subj)
         for k, v in sorted(g['kws'].items()):
             if not isinstance(co.flags, dict) or co.flags.get(k) != v:
-                bad('circuit_latest_flags', 'keyword-%s-after-%s' % (k, last),
-                    'circuit %d flags[%s] is %r; Tor last reported %s' % (cid, k, co.flags.get(k) if isinstance(co.flags, dict) else co.flags, v))
+                bad('circuit_latest_flags', 'keyword-after-' + last,
+                    'circuit %d flags[%s] is %r; Tor last reported %s'
+                    % (cid, k, co.flags.get(k) if isinstance(co.flags, dict) else co.flags, v), subj)
                 break
         got = [getattr(r, 'id_hex', None) for r in co.path]
         want = [h for h, _ in g['path']]
         if got != want:
             bad('circuit_latest_path', '%d-hops-after-%s' % (len(want), last),
-                'circuit %d path %r; Tor last reported %r' % (cid, [str(x)[:9] for x in got], [x[:9] for x in want]))
+                'circuit %d path %r; Tor last reported %r' % (cid, [str(x)[:9] for x in got], [x[:9] for x in want]), subj)
         else:
             for r, (h, _) in zip(co.path, g['path']):
-                if h in CONSENSUS_NICK and getattr(r, 'name', None) != CONSENSUS_NICK[h]:
+                if h in CONSENSUS and (getattr(r, 'name', None), getattr(r, 'ip', None)) != CONSENSUS[h]:
                     bad('circuit_latest_path', 'consensus-relay-after-' + last,
-                        'circuit %d hop %s is router named %r; the consensus calls it %s' % (cid, h[:9], getattr(r, 'name', None), CONSENSUS_NICK[h]))
+                        'circuit %d hop %s is a router named %r at %r; the consensus has it as %s at %s'
+                        % ((cid, h[:9], getattr(r, 'name', None), getattr(r, 'ip', None)) + CONSENSUS[h]), subj)
                     break
 
     # ---- the streams listed are exactly Tor's; closed / failed ones are gone
@@ -358,38 +361,43 @@ def check_state(state, ghost, tr):
     for sid in sorted(have_s - live_s):
         if ghost.stream_gen.get(sid):
             bad('closed_or_failed_stream_is_gone', 'after-' + last,
-                'stream %d is still listed; Tor closed/failed it; expected it gone' % sid)
+                'stream %d is still listed; Tor closed/failed it; expected it gone' % sid, 's%d' % sid)
         else:
-            bad('streams_listed_exactly', 'extra-after-' + last, 'stream %d listed; Tor never reported it' % sid)
+            bad('streams_listed_exactly', 'extra-after-' + last, 'stream %d listed; Tor never reported it' % sid, 's%d' % sid)
     for sid in sorted(live_s - have_s):
         bad('streams_listed_exactly', 'missing-first-seen-%s-after-%s' % (ghost.stream[sid]['first_seen'], last),
-            'stream %d (Tor: %s) is not listed; expected listed' % (sid, ghost.stream[sid]['status']))
+            'stream %d (Tor: %s) is not listed; expected listed' % (sid, ghost.stream[sid]['status']), 's%d' % sid)
     for sid in sorted(live_s & have_s):
-        g, so = ghost.stream[sid], state.streams[sid]
+        g, so, subj = ghost.stream[sid], state.streams[sid], 's%d' % sid
         if so.id != sid:
-            bad('streams_listed_exactly', 'wrong-object-after-' + last, 'streams[%d].id is %r' % (sid, so.id))
+            bad('streams_listed_exactly', 'wrong-object-after-' + last, 'streams[%d].id is %r' % (sid, so.id), subj)
         if so.state != g['status']:
-            bad('stream_latest_status', 'after-' + last, 'stream %d state %r; Tor last reported %s' % (sid, so.state, g['status']))
+            bad('stream_latest_status', 'after-' + last, 'stream %d state %r; Tor last reported %s' % (sid, so.state, g['status']), subj)
         got = '%s:%s' % (so.target_host, so.target_port)
         if got != g['first_target']:
-            bad('stream_target', 'first-seen-%s-now-%s' % (g['first_seen'], g['status']),
-                'stream %d target %r; Tor first reported %s' % (sid, got, g['first_target']))
+            bad('stream_target', 'first-seen-%s-after-%s' % (g['first_seen'], last),
+                'stream %d target %r; Tor first reported %s' % (sid, got, g['first_target']), subj)
         if g['remap'] is not None and _nobrackets(so.target_addr) != _nobrackets(g['remap']):
             bad('stream_remapped_address', 'after-' + last,
-                'stream %d target_addr %r; latest REMAP address %s' % (sid, str(so.target_addr), g['remap']))
+                'stream %d target_addr %r; latest REMAP address %s' % (sid, str(so.target_addr), g['remap']), subj)
         if g['source'] is not None:
             if _nobrackets(so.source_addr) != _nobrackets(g['source'][0]) or str(so.source_port) != g['source'][1]:
                 bad('stream_source_address', 'after-' + last,
-                    'stream %d source %r port %r; Tor reported %s:%s' % (sid, str(so.source_addr), so.source_port, g['source'][0], g['source'][1]))
+                    'stream %d source %r port %r; Tor reported %s:%s'
+                    % (sid, str(so.source_addr), so.source_port, g['source'][0], g['source'][1]), subj)
 
     # ---- attachment
     def circ_is_live(co):
         return getattr(co, 'id', None) in state.circuits and state.circuits[co.id] is co and co.id in ghost.circ
 
+    def open_or_closed(co):
+        return 'circuit-still-open' if circ_is_live(co) else 'circuit-closed-first'
+
     for so, sid, gen in list(tr.streams.values()):
         g = ghost.stream.get(sid)
         is_live = g is not None and g['gen'] == gen and state.streams.get(sid) is so
         att = g['att'] if is_live else None
+        subj = 's%s.%s' % (sid, gen)
         if is_live and att == 'unspecified':
             continue
         where = [(co, co.streams.count(so)) for co, _, _ in tr.circs.values() if co.streams.count(so)]
@@ -397,47 +405,49 @@ def check_state(state, ghost, tr):
             # never attached, detached (DETACHED / circuit id 0), closed or failed: under no circuit
             kind = ('detached' if g['status'] == 'DETACHED' else 'unattached') if is_live else 'closed_or_failed'
             for co, n in where:
-                bad('%s_stream_under_no_circuit' % kind,
-                    '%s-after-%s' % ('circuit-still-open' if circ_is_live(co) else 'circuit-closed-first', last),
-                    'stream %s appears %d time(s) under circuit %s; expected under none' % (sid, n, co.id))
+                bad('%s_stream_under_no_circuit' % kind, '%s-after-%s' % (open_or_closed(co), last),
+                    'stream %s appears %d time(s) under circuit %s; expected under none' % (sid, n, co.id), subj)
             if so.circuit is not None:
                 bad('attachment_consistent_both_directions', '%s-stream-keeps-circuit-after-%s' % (kind, last),
-                    'stream %s has circuit %s; Tor reports it %s' % (sid, getattr(so.circuit, 'id', None), kind))
+                    'stream %s has circuit %s; Tor reports it %s' % (sid, getattr(so.circuit, 'id', None), kind), subj)
             continue
         cid, cgen = att
         c = so.circuit
-        if c is None or getattr(c, 'id', None) != cid:
+        gc = ghost.circ.get(cid)
+        same_incarnation_live = gc is not None and gc['gen'] == cgen
+        if c is None and not same_incarnation_live:
+            pass    # its circuit closed under it: the statement does not say the stream must still point at the closed circuit
+        elif c is None or getattr(c, 'id', None) != cid:
             bad('attachment_matches_tor', 'after-' + last,
-                'stream %d circuit is %s; Tor reports it on circuit %d' % (sid, getattr(c, 'id', None) if c is not None else None, cid))
+                'stream %d circuit is %s; Tor reports it on circuit %d' % (sid, getattr(c, 'id', None) if c is not None else None, cid), subj)
         else:
             tag = tr.circs.get(id(c))
-            gc = ghost.circ.get(cid)
-            same_incarnation_live = gc is not None and gc['gen'] == cgen
             if same_incarnation_live and state.circuits.get(cid) is not c:
                 bad('attachment_matches_tor', 'not-the-listed-circuit-after-' + last,
-                    'stream %d is on a Circuit object with id %d that is not the listed circuit %d' % (sid, cid, cid))
+                    'stream %d is on a Circuit object with id %d that is not the listed circuit %d' % (sid, cid, cid), subj)
             if not same_incarnation_live and tag is not None and tag[2] is not None and tag[2] != cgen:
                 bad('attachment_matches_tor', 'reused-circuit-id-after-' + last,
-                    'stream %d is on the new circuit %d; Tor attached it to the earlier circuit with that id' % (sid, cid))
+                    'stream %d is on the new circuit %d; Tor attached it to the earlier circuit with that id' % (sid, cid), subj)
             n = c.streams.count(so)
             if n > 1 or (n != 1 and same_incarnation_live):
                 bad('stream_under_its_circuit_exactly_once', 'count-%d-after-%s' % (n, last),
-                    'stream %d appears %d times under circuit %d; expected once' % (sid, n, cid))
+                    'stream %d appears %d times under circuit %d; expected once' % (sid, n, cid), subj)
         for co, n in where:
             if co is not c:
-                bad('stream_under_no_other_circuit',
-                    '%s-after-%s' % ('circuit-still-open' if circ_is_live(co) else 'circuit-closed-first', last),
-                    'stream %d (Tor: on circuit %d) also appears under circuit object %s' % (sid, cid, co.id))
+                bad('stream_under_no_other_circuit', '%s-after-%s' % (open_or_closed(co), last),
+                    'stream %d (Tor: on circuit %d) also appears under circuit object %s' % (sid, cid, co.id), subj)
 
     # the other direction: whatever a circuit lists is a stream that is on that circuit
     for co, cid, gen in list(tr.circs.values()):
         for x in list(co.streams):
+            subj = 'c%s.%s/s%s' % (cid, gen, getattr(x, 'id', None))
             if getattr(x, 'circuit', None) is not co:
                 bad('attachment_consistent_both_directions', 'listed-stream-points-elsewhere-after-' + last,
-                    'circuit %s lists stream %s whose circuit is %s' % (cid, getattr(x, 'id', None), getattr(getattr(x, 'circuit', None), 'id', None)))
+                    'circuit %s lists stream %s whose circuit is %s'
+                    % (cid, getattr(x, 'id', None), getattr(getattr(x, 'circuit', None), 'id', None)), subj)
             if circ_is_live(co) and state.streams.get(getattr(x, 'id', None)) is not x:
                 bad('attachment_consistent_both_directions', 'circuit-lists-unlisted-stream-after-' + last,
-                    'circuit %s lists stream %s which is not a listed stream' % (cid, getattr(x, 'id', None)))
+                    'circuit %s lists stream %s which is not a listed stream' % (cid, getattr(x, 'id', None)), subj)
     return out
 
 
@@ -451,16 +461,20 @@ def run_history(hist):
     stream_lines = list(snap.get('streams') or [])
     events = [tuple(e) for e in hist.get('events') or []]
     record = {'snapshot': {'circuits': circ_lines, 'streams': stream_lines}, 'events': [list(e) for e in events]}
-    viol, seen = [], set()
+    viol, seen, active = [], set(), [set()]
 
     def report(step, items):
-        for clause, sig, what in items:
+        # a deviation is reported at the step that introduces it, not again while it persists
+        now = set((clause, subj) for clause, _, _, subj in items)
+        for clause, sig, what, subj in items:
             key = '%s:%s:%s' % (PROP, clause, sig)
-            if key in seen:
+            if (clause, subj) in active[0] or key in seen:
                 continue
             seen.add(key)
-            viol.append({'key': key, 'clause': clause, 'what': 'step %d (%s): %s' % (step, 'snapshot' if step == 0 else events[step - 1][1], what),
+            viol.append({'key': key, 'clause': clause,
+                         'what': 'step %d (%s): %s' % (step, 'snapshot' if step == 0 else events[step - 1][1], what),
                          'history': {'snapshot': record['snapshot'], 'events': record['events'][:step]}})
+        active[0] = now
 
     sess = Session(circ_lines, stream_lines)
     ghost, tr = Ghost(), Tracker()
@@ -471,7 +485,7 @@ def run_history(hist):
     ghost.last = 'snapshot'
     if not sess.booted():
         report(0, [('snapshot_listed_exactly', 'bootstrap-did-not-complete',
-                    'TorState.post_bootstrap: %r %s; expected it to fire once with the state' % (sess.boot.results, sess.error or ''))])
+                    'TorState.post_bootstrap: %r %s; expected it to fire once with the state' % (sess.boot.results, sess.error or ''), 'boot')])
         return viol
     state = sess.state
     tr.note(state, ghost)
@@ -485,7 +499,7 @@ def run_history(hist):
         tr.note(state, ghost)
         items = check_state(state, ghost, tr)
         if sess.error:
-            items.append(('events_are_processed', 'exception-after-' + ghost.last, 'dataReceived raised %s' % sess.error))
+            items.append(('events_are_processed', 'exception-after-' + ghost.last, 'dataReceived raised %s' % sess.error, 'n%d' % n))
             sess.error = None
         report(n, items)
     return viol
@@ -832,7 +846,7 @@ def twin(tier, seed):
             samples.append({'phase': phase, 'snapshot': hist['snapshot'], 'events': hist['events'][:12]})
 
     # ---- A. exhaustive, small scope: every history Tor can emit, empty snapshot
-    scopes = [(1, 1, 2, 7), (2, 1, 1, 5), (1, 2, 1, 5)] if quick else [(1, 1, 2, 10), (2, 1, 1, 7), (1, 2, 1, 7), (2, 2, 1, 5)]
+    scopes = [(1, 1, 2, 6), (2, 1, 1, 4), (1, 2, 1, 4)] if quick else [(1, 1, 2, 9), (2, 1, 1, 6), (1, 2, 1, 6), (2, 2, 1, 4)]
     for nc, ns, hops, depth in scopes:
         base = TorModel(CIRC_IDS[:nc], STREAM_IDS[:ns], hops, z=seed, first_sight=False)
         for seq in all_histories(base, depth):
@@ -841,7 +855,7 @@ def twin(tier, seed):
 
     # ---- B. snapshots: every 2x2 configuration (a seeded sample of the 3x3 ones), then a tour
     covered = {}
-    for nc, ns, hops, stride in ([(2, 2, 2, 5), (3, 3, 3, 331)] if quick else [(2, 2, 2, 1), (3, 3, 3, 13)]):
+    for nc, ns, hops, stride in ([(2, 2, 2, 1), (3, 3, 3, 67)] if quick else [(2, 2, 2, 1), (3, 3, 3, 1)]):
         cfgs = snapshot_configs(nc, ns)
         off = rnd.randrange(stride)
         cov = covered.setdefault((nc, ns, hops), set())
@@ -854,7 +868,7 @@ def twin(tier, seed):
             run({'snapshot': snap, 'events': _walk(m, 12, rnd, cov)}, 'B-snapshot+tour')
 
     # ---- C. transition-coverage tours from the empty snapshot (ids reused after close, zombies, ...)
-    for nc, ns, hops, count in ([(2, 2, 2, 500), (3, 3, 2, 300)] if quick else [(2, 2, 2, 12000), (3, 3, 2, 25000), (3, 3, 3, 8000)]):
+    for nc, ns, hops, count in ([(2, 2, 2, 500), (3, 3, 2, 400)] if quick else [(2, 2, 2, 8000), (3, 3, 2, 15000), (3, 3, 3, 6000)]):
         cov = covered.setdefault((nc, ns, hops), set())
         for _ in range(count):
             m = TorModel(CIRC_IDS[:nc], STREAM_IDS[:ns], hops, z=rnd.getrandbits(40))
